@@ -3,8 +3,8 @@ package main
 // C20 — keys and passwords never leak into diagnostics, errors, logs or encodings.
 
 import (
-	"go/constant"
 	"fmt"
+	"go/constant"
 	"go/types"
 	"strings"
 
